@@ -13,10 +13,13 @@ Inductive pmig := PAsIs | PDecremented | PBySpaces.
 
 (* functions.go: asIs() / asRename(n) / asTemplate(fmt) = [Template fmt []] /
    asOperatorTemplate(fmt, prec...) = [Template fmt precs] / asJoin(sep, prec) /
-   asParamMigrators(n, pm...) = asParamMigratorsWithDefaults(n, nil, pm...) *)
+   asParamMigrators(n, pm...) = asParamMigratorsWithDefaults(n, nil, pm...) / asDateDif() /
+   withOptionalDefaults(numRequired, defaults, migrator) *)
 Inductive cmig :=
 | AsIs
 | Rename (new_name : text)
 | Template (fmt : text) (precs : list nat)
 | Join (sep : text) (prec : nat)
-| Params (new_name : text) (defaults : list text) (pms : list pmig).
+| Params (new_name : text) (defaults : list text) (pms : list pmig)
+| DateDif                                                    (* asDateDif() *)
+| Optional (required : nat) (defaults : list text) (inner : cmig).   (* withOptionalDefaults(n, defaults, inner) *)
